@@ -326,8 +326,8 @@ func Spec() *mon.Spec {
 		},
 		Floors: map[string]int{
 			"valid_programs": 700, "prefixes": 100000, "prefixes_with_error": 20000, "prefixes_clean": 20000,
-			"enter_decisions_checked": 150000, "arbitrary_inputs": 30000, "inputs_with_partial_error": 30000,
-			"arbitrary_inputs_with_nonpartial_error": 10000, "partial_error_messages": 10,
+			"enter_decisions_checked": 140000, "arbitrary_inputs": 30000, "inputs_with_partial_error": 30000,
+			"arbitrary_inputs_with_nonpartial_error": 10000, "partial_error_messages": 6,
 			"editor_enter_newline": 40, "editor_enter_submit": 40, "distinct_nontrivial": 20000,
 		},
 	}
